@@ -1,4 +1,4 @@
-From Coq Require Import List Bool Arith Lia.
+From Coq Require Import List Bool Arith Lia String.
 From V Require Import Model.Wrapper.
 Import ListNotations.
 
@@ -6,7 +6,7 @@ Import ListNotations.
     error event, for the first failing parameter, and nothing after it. *)
 Theorem reject_no_handler : forall ps i,
   existsb (fun p => negb (passes p)) ps = true ->
-  exists k, wrapper i ps = [WErr (i + k)] /\ k < length ps /\
+  exists k, wrapper i ps = [WErr (i + k)] /\ k < List.length ps /\
             forallb passes (firstn k ps) = true /\
             option_map passes (nth_error ps k) = Some false.
 Proof.
@@ -56,3 +56,43 @@ Qed.
 Theorem no_return_refuted :
   exists ps, existsb (fun p => negb (passes p)) ps = true /\ handler_called (wrapper_no_return 0 ps) = true.
 Proof. exists [ {| p_required := true; p_state := Absent |} ]. split; reflexivity. Qed.
+
+(** * Query parameters next to a form-encoded body *)
+Lemma body_is_irrelevant : forall decl q b b',
+  qwrapper read_query decl {| in_query := q; in_body := b |} = qwrapper read_query decl {| in_query := q; in_body := b' |}.
+Proof. reflexivity. Qed.
+
+Lemma missing_required_query_parameter_rejected : forall decl r name,
+  In (name, true) decl -> found (in_query r) name = Absent ->
+  handler_called (qwrapper read_query decl r) = false.
+Proof.
+  intros decl r name Hin Habs. unfold qwrapper. apply reject_handler_not_called.
+  apply existsb_exists. exists {| p_required := true; p_state := read_query r name |}. split.
+  - apply in_map_iff. exists (name, true). split; [reflexivity|exact Hin].
+  - unfold passes, read_query. cbn [p_state p_required]. rewrite Habs. reflexivity.
+Qed.
+
+Lemma complete_query_accepted : forall decl r,
+  (forall d, In d decl -> found (in_query r) (fst d) = Binds \/ (snd d = false /\ found (in_query r) (fst d) = Absent)) ->
+  qwrapper read_query decl r = [WHandler].
+Proof.
+  intros decl r H. unfold qwrapper. apply accept_wellformed. apply forallb_forall. intros p Hp.
+  apply in_map_iff in Hp. destruct Hp as [d [Hd Hin]]. subst p. unfold passes, read_query. cbn [p_state p_required].
+  destruct (H d Hin) as [Hb|[Hf Ha]]; [rewrite Hb; reflexivity|rewrite Ha, Hf; reflexivity].
+Qed.
+
+Lemma form_value_refuted :
+  exists decl r name, In (name, true) decl /\ found (in_query r) name = Absent
+                      /\ handler_called (qwrapper read_form_value decl r) = true.
+Proof.
+  exists [("token"%string, true)], {| in_query := []; in_body := [("token"%string, Binds)] |}, "token"%string.
+  split; [left; reflexivity|]. split; reflexivity.
+Qed.
+
+Lemma form_value_rejects_complete_query_refuted :
+  exists decl r, (forall d, In d decl -> found (in_query r) (fst d) = Binds)
+                 /\ handler_called (qwrapper read_form_value decl r) = false.
+Proof.
+  exists [("filter"%string, true)], {| in_query := [("filter"%string, Binds)]; in_body := [("filter"%string, Malformed)] |}.
+  split; [intros d [Hd|[]]; subst d; reflexivity|reflexivity].
+Qed.
